@@ -1,4 +1,6 @@
 """C02 - interval transfer functions are sound (IntervalDomain::bin_op/un_op/cast/subpiece)."""
+import concurrent.futures as cf
+
 import core
 from core import Report
 import strict_canary
@@ -25,9 +27,12 @@ MANIFEST = {
 def check(seed, tier):
     rep = Report("C02", seed, tier)
     core.build_harness()
-    core.mc(rep, "mc/MC_Interval.tla", "MC_Interval.cfg" if tier == "thorough" else "MC_Interval_quick.cfg", workers=4)
+    # mode M (gamma sanity) runs concurrently with the trace validation (4 + 8 JVM threads)
+    pool = cf.ThreadPoolExecutor(max_workers=1)
+    mc_job = pool.submit(core.mc, rep, "mc/MC_Interval.tla", "MC_Interval.cfg" if tier == "thorough" else "MC_Interval_quick.cfg", 4)
     meta = core.gen("C02", seed, tier, shards=8 if tier == "quick" else 16)
     core.validate_traces(rep, TRACE_SPEC, meta["files"], parallel=8, timeout=5400)
+    mc_job.result()
 
     def eligible(e):
         # an IntAdd result with more than one member must contain xs+ys and xe+ye, two different values
